@@ -815,12 +815,43 @@ fn junk(rng: &mut Rng) -> Vec<u8> {
     }
 }
 
+/// the same packet with its sequence field re-encoded: k zero bytes appended to the (little-endian) sequence and the
+/// length nibble of the prefix raised accordingly, or a zero most-significant byte dropped; ciphertext and tag untouched.
+/// The prefix byte is bound as associated data, so this is a modified datagram like any other.
+fn reencode_sequence(rng: &mut Rng, d: &[u8]) -> Option<Vec<u8>> {
+    let ty = d[0] & 0xf;
+    let n = (d[0] >> 4) as usize;
+    if ty == 0 || ty > 6 || n > 8 || d.len() < 1 + n + 16 {
+        return None;
+    }
+    if n >= 1 && d[n] == 0 && rng.chance(1, 2) {
+        let mut v = vec![ty | (((n - 1) as u8) << 4)];
+        v.extend_from_slice(&d[1..n]);
+        v.extend_from_slice(&d[1 + n..]);
+        return Some(v);
+    }
+    if n < 8 {
+        let k = rng.range(1, (8 - n) as u64) as usize;
+        let mut v = vec![ty | (((n + k) as u8) << 4)];
+        v.extend_from_slice(&d[1..1 + n]);
+        v.extend(vec![0u8; k]);
+        v.extend_from_slice(&d[1 + n..]);
+        return Some(v);
+    }
+    None
+}
+
 /// a mutation of a genuine datagram that cannot be authentic any more
 fn mutate(rng: &mut Rng, d: &[u8]) -> Vec<u8> {
     if d.is_empty() {
         return vec![0x15];
     }
     let is_request = d[0] & 0xf == 0;
+    if !is_request && rng.chance(1, 5) {
+        if let Some(v) = reencode_sequence(rng, d) {
+            return v;
+        }
+    }
     match rng.below(4) {
         0 if d.len() > 1 => d[..rng.below(d.len() as u64) as usize].to_vec(),
         1 => {
@@ -1047,7 +1078,19 @@ fn script_session(rng: &mut Rng, tier: Tier, f: &mut dyn FnMut(&str) -> String) 
     while sc.n < budget {
         let c = rng.below(2) as usize;
         let other = 1 - c;
-        match rng.below(20) {
+        match rng.below(21) {
+            20 => {
+                // reflection: a genuine datagram presented to the endpoint that emitted it
+                let pool: Vec<&(Vec<u8>, bool, usize)> = held.iter().chain(seen.iter()).collect();
+                if !pool.is_empty() {
+                    let (d, from_client, ci) = rng.pick(&pool).clone();
+                    if from_client {
+                        hostile_cli(&mut sc, "hostile", cls[ci].h, &d);
+                    } else {
+                        hostile_srv(&mut sc, "hostile", &cls[ci].addr.clone(), &d);
+                    }
+                }
+            }
             0 | 1 | 2 => {
                 // client -> server payload, delivered at once or held back
                 let n = rng.pick(&[0usize, 1, 2, 100, 1299, 1300]);
@@ -2761,7 +2804,7 @@ fn script_wire(rng: &mut Rng, tier: Tier, f: &mut dyn FnMut(&str) -> String) {
 // profile 0: nc-regress — one fixed op list per repaired defect (deterministic, run on every check)
 // =============================================================================================
 
-const REGRESS_CASES: usize = 37;
+const REGRESS_CASES: usize = 39;
 
 fn regress_script(case: usize, f: &mut dyn FnMut(&str) -> String) {
     let mut rng = Rng::new(0xD1CE + case as u64);
@@ -2778,7 +2821,7 @@ fn regress_script(case: usize, f: &mut dyn FnMut(&str) -> String) {
         SRV_A.to_string()
     };
     let max = match case {
-        7 | 19 | 22 => 1,
+        7 | 19 | 22 | 37 => 1,
         35 => 4,
         13 => 3,
         _ => 2,
@@ -3919,6 +3962,127 @@ fn regress_script(case: usize, f: &mut dyn FnMut(&str) -> String) {
                 }
             }
         }
+        // challenged while the seat is free; the seat is taken before the response arrives: a denial (lost on the way);
+        // the seat becomes free, the recorded request knocks again, the client's repeated response connects: the denial
+        // and the session's packets travel under one key
+        37 => {
+            let mut req1: Vec<u8> = vec![];
+            let mut chal1: Option<Vec<u8>> = None;
+            if let (_, Some(k)) = sc.opd("cli-upd 1 0") {
+                req1 = sc.hist[k].bytes.clone();
+                if let (_, Some(k)) = sc.opd(&format!("srv-rx 0 {} {}", cls[1].addr, hex(&req1))) {
+                    chal1 = Some(sc.hist[k].bytes.clone());
+                }
+            }
+            fast_connect(&mut sc, &cls[0]);
+            if let Some(ch) = chal1 {
+                sc.op(&format!("cli-rx 1 {}", hex(&ch)));
+                if let (_, Some(k)) = sc.opd("cli-upd 1 0") {
+                    let resp = sc.hist[k].bytes.clone();
+                    sc.op(&format!("srv-rx 0 {} {}", cls[1].addr, hex(&resp))); // denied; the datagram is lost
+                }
+                sc.op("srv-dump 0");
+                sc.op("srv-disc 0 40");
+                sc.op(&format!("srv-rx 0 {} {}", cls[1].addr, hex(&req1))); // a late duplicate of the request
+                sc.op("srv-upd 0 250000");
+                if let (_, Some(k)) = sc.opd("cli-upd 1 250000") {
+                    let resp = sc.hist[k].bytes.clone();
+                    if let (_, Some(k)) = sc.opd(&format!("srv-rx 0 {} {}", cls[1].addr, hex(&resp))) {
+                        let ka = sc.hist[k].bytes.clone();
+                        sc.op(&format!("cli-rx 1 {}", hex(&ka)));
+                    }
+                }
+                for p in ["6f6e65", "74776f"] {
+                    if let (_, Some(k)) = sc.opd(&format!("srv-pay 0 41 {}", p)) {
+                        let d = sc.hist[k].bytes.clone();
+                        sc.op("note expect-payload");
+                        sc.op(&format!("cli-rx 1 {}", hex(&d)));
+                    }
+                }
+                sc.op("srv-q 0 41");
+                sc.op("srv-dump 0");
+            }
+        }
+        // a token made by the LIBRARY (ConnectToken::generate: keys unknown to the trace, hence a quiet trace with
+        // datagrams by history index); a session on it; then every datagram of the session is presented to the endpoint
+        // that emitted it: nothing is surfaced
+        38 => {
+            // (explicit user data: without it the library draws that at random, too)
+            let out = sc.op(&format!("tok-make 0 5000000 {} 30 71 5 {} {} {}", proto, hosts, hex(&[0x71u8; 256]), hex(&key)));
+            if !out.starts_with("ok ") || sc.op("cli-newt 5 5000000 0") != "ok" {
+                return;
+            }
+            sc.op("nc-quiet 1");
+            let x = a4(10, 9, 8, 1, 4981);
+            let mut n = 0usize;
+            let mut emits = |sc: &mut Sc, op: &str| -> Option<usize> {
+                let out = sc.op(op);
+                let t = toks(&out);
+                let yes = match t.first().cloned() {
+                    Some("send") | Some("connected") => true,
+                    Some("disconnected") => t.last() != Some(&"none"),
+                    _ => false,
+                };
+                if yes {
+                    n += 1;
+                    Some(n - 1)
+                } else {
+                    None
+                }
+            };
+            let mut from_srv: Vec<usize> = vec![];
+            let mut from_cli: Vec<usize> = vec![];
+            if let Some(rq) = emits(&mut sc, "cli-upd 5 0") {
+                if let Some(ch) = emits(&mut sc, &format!("srv-rx 0 {} @{}", x, rq)) {
+                    from_srv.push(ch);
+                    sc.op(&format!("cli-rx 5 @{}", ch));
+                    if let Some(rs) = emits(&mut sc, "cli-upd 5 0") {
+                        from_cli.push(rs);
+                        if let Some(ka) = emits(&mut sc, &format!("srv-rx 0 {} @{}", x, rs)) {
+                            from_srv.push(ka);
+                            sc.op(&format!("cli-rx 5 @{}", ka));
+                        }
+                    }
+                }
+            }
+            sc.op("cli-q 5");
+            for j in 0..2u8 {
+                if let Some(p) = emits(&mut sc, &format!("srv-pay 0 71 a{}b{}", j, j)) {
+                    from_srv.push(p);
+                    sc.op(&format!("cli-rx 5 @{}", p));
+                }
+                if let Some(q) = emits(&mut sc, &format!("cli-pay 5 c{}d{}", j, j)) {
+                    from_cli.push(q);
+                    emits(&mut sc, &format!("srv-rx 0 {} @{}", x, q));
+                }
+            }
+            sc.op("srv-upd 0 250000");
+            if let Some(k) = emits(&mut sc, "srv-updc 0 71") {
+                from_srv.push(k);
+                sc.op(&format!("cli-rx 5 @{}", k));
+            }
+            if let Some(k) = emits(&mut sc, "cli-upd 5 250000") {
+                from_cli.push(k);
+                emits(&mut sc, &format!("srv-rx 0 {} @{}", x, k));
+            }
+            // reflection
+            // (no server dumps here: they show key bytes, and this token's keys are the library's secret)
+            for k in from_srv.iter() {
+                sc.op("srv-q 0 71");
+                sc.op("note hostile");
+                emits(&mut sc, &format!("srv-rx 0 {} @{}", x, k));
+                sc.op("srv-q 0 71");
+            }
+            for k in from_cli.iter() {
+                sc.op("cli-dump 5");
+                sc.op("note hostile");
+                sc.op(&format!("cli-rx 5 @{}", k));
+                sc.op("cli-dump 5");
+            }
+            sc.op("srv-q 0 71");
+            sc.op("cli-q 5");
+            sc.op("nc-quiet 0");
+        }
         // sequence 2^64-1 (the window's EMPTY sentinel) from the owner of a session
         _ => {
             fast_connect(&mut sc, &cls[0]);
@@ -4800,7 +4964,22 @@ fn walk(ops: &[String], outs: &[String], f: &mut dyn FnMut(usize, &[&str], &str,
             "nc-dec" if t.len() == 5 => resolve_dg(t[4], &hist),
             _ => None,
         };
-        let em = emitted_of(&ops[i], &outs[i]);
+        let mut em = emitted_of(&ops[i], &outs[i]);
+        if let Some((_, d)) = em.as_mut() {
+            if outs[i].rsplit(' ').next().map(|x| x.starts_with('#')).unwrap_or(false) {
+                // content hidden (`nc-quiet`): a stand-in of the right length that is no netcode packet (type nibble 15)
+                // and is unique (carries its history index), so that identity by bytes still works
+                if !d.is_empty() {
+                    d[0] = 0xff;
+                }
+                let idx = (hist.len() as u64).to_le_bytes();
+                for (j, b) in idx.iter().enumerate() {
+                    if 1 + j < d.len() {
+                        d[1 + j] = *b;
+                    }
+                }
+            }
+        }
         if let Some(r) = f(i, &t, &outs[i], input.as_ref(), em.as_ref()) {
             return Some(r);
         }
@@ -5802,6 +5981,7 @@ fn oracle_payloads(ops: &[String], outs: &[String]) -> Option<OracleFail> {
     let mut session: HashMap<(String, u64), usize> = HashMap::new();
     let mut live_addr: HashSet<(String, String)> = HashSet::new();
     let mut expect = false;
+    let mut made: HashMap<String, u64> = HashMap::new();
     walk(ops, outs, &mut |i, t, out, input, em| {
         let expected = expect;
         expect = false;
@@ -5809,6 +5989,16 @@ fn oracle_payloads(ops: &[String], outs: &[String]) -> Option<OracleFail> {
             "note" => {
                 if t.len() == 2 && t[1] == "expect-payload" {
                     expect = true;
+                }
+            }
+            "tok-make" if t.len() == 10 && out.starts_with("ok ") => {
+                if let Some(id) = p_u64(t[5]) {
+                    made.insert(t[1].to_string(), id);
+                }
+            }
+            "cli-newt" if t.len() == 4 && out == "ok" => {
+                if let Some(id) = made.get(t[3]) {
+                    cli_id.insert(t[1].to_string(), (*id, i));
                 }
             }
             "cli-new" if t.len() == 4 && out == "ok" => {
@@ -5893,6 +6083,58 @@ fn oracle_payloads(ops: &[String], outs: &[String]) -> Option<OracleFail> {
         }
         None
     })
+}
+
+/// C04 ("surfaces a payload only if it is … one its session PEER passed to generate_payload_packet"): a datagram an
+/// endpoint emitted itself and that comes back to it (reflection) surfaces nothing — identity by history reference
+/// (`@k`) or by bytes; and the two directions of a connect token made by the library (`tok-make`) have different keys.
+fn oracle_reflection(ops: &[String], outs: &[String]) -> Option<OracleFail> {
+    let mut src: Vec<String> = vec![];
+    let mut by_bytes: HashMap<Vec<u8>, String> = HashMap::new();
+    walk(ops, outs, &mut |i, t, out, input, em| {
+        if t.len() < 2 {
+            return None;
+        }
+        let me = if t[0].starts_with("srv-") {
+            format!("server {}", t[1])
+        } else if t[0].starts_with("cli-") {
+            format!("client {}", t[1])
+        } else {
+            return None;
+        };
+        let mut result = None;
+        if (t[0] == "srv-rx" || t[0] == "cli-rx") && out.starts_with("payload ") {
+            let arg = t.last().cloned().unwrap_or("");
+            let origin = match arg.strip_prefix('@').and_then(p_u64) {
+                Some(k) => src.get(k as usize).cloned(),
+                None => input.and_then(|d| by_bytes.get(d).cloned()),
+            };
+            if origin.as_deref() == Some(me.as_str()) {
+                result = fail(i, "reflected-datagram-accepted", format!("{} surfaced `{}` from a datagram it had emitted itself", me, trunc_s(out, 40)));
+            }
+        }
+        if let Some((_, d)) = em {
+            src.push(me.clone());
+            by_bytes.entry(d.clone()).or_insert(me);
+        }
+        result
+    })
+}
+
+/// C04 (premise of "for the same … session keys": one key per direction): a token made by the library has two keys
+fn oracle_token_directions(ops: &[String], outs: &[String]) -> Option<OracleFail> {
+    for i in 0..ops.len().min(outs.len()) {
+        if ops[i].starts_with("tok-make ") && outs[i].starts_with("ok ") && field(&outs[i], "distinct") == Some("0") {
+            return fail(i, "token-directions-share-a-key", "ConnectToken::generate produced a token whose client-to-server and server-to-client keys are the same 32 bytes".into());
+        }
+    }
+    None
+}
+
+/// C10 ("lookups by id (address, user data, …) refer to the session that was authenticated for that id"): the
+/// user-data clause of `nc-connect-justified`
+fn oracle_connect_user_data(ops: &[String], outs: &[String]) -> Option<OracleFail> {
+    oracle_connect_justified(ops, outs).filter(|f| f.signature.ends_with("user-data-of-another-token"))
 }
 
 // ----- C18: timeouts fire exactly at the first update past the deadline ---------------------------------------------
@@ -6674,6 +6916,9 @@ pub fn oracles() -> Vec<Oracle> {
         Oracle { prop: "C17", name: "nc-tampered-rejected", engines: &["nc-wire", "nc-regress", "nc-handshake", "nc-session", "nc-failover"], check: oracle_mutated_rejected },
         Oracle { prop: "C16", name: "nc-wire-roundtrip", engines: &["nc-wire", "nc-regress"], check: oracle_roundtrip },
         Oracle { prop: "C04", name: "nc-payloads-authentic-once", engines: &["nc-session", "nc-handshake", "nc-hostile", "nc-known", "nc-regress", "nc-failover"], check: oracle_payloads },
+        Oracle { prop: "C04", name: "nc-no-reflection", engines: &["nc-session", "nc-hostile", "nc-regress", "nc-handshake"], check: oracle_reflection },
+        Oracle { prop: "C04", name: "nc-token-directions", engines: &["nc-regress"], check: oracle_token_directions },
+        Oracle { prop: "C10", name: "nc-connect-user-data", engines: &["nc-attacker", "nc-regress", "nc-handshake"], check: oracle_connect_user_data },
         Oracle { prop: "C04", name: "nc-window-once", engines: &["nc-window"], check: oracle_window_once },
         Oracle { prop: "C20", name: "nc-stale-handshake-harmless", engines: &["nc-attacker", "nc-regress"], check: oracle_stale_handshake_harmless },
         Oracle { prop: "C18", name: "nc-handshake-completes", engines: &["nc-regress", "nc-attacker", "nc-pending-full"], check: oracle_expect_connected },
